@@ -13,7 +13,7 @@ def sh(cmd, timeout=2400):
 def clean():
     sh("git checkout -q -- . && git clean -fdq")
 notes = open(os.path.join(d, "notes.md")).read()
-mm = re.search(r"DEMO:\s*copy demo/\*\.go to\s+(\S+?);?\s+run:\s*(.+)", notes)
+mm = re.search(r"DEMO:\s*copy demo/\*\.go to\s+(\S+?)\s*(?:\([^)]*\))?\s*;\s*run:\s*`?(?:cd <repo> && )?(.+?)`?\s*$", notes, re.M)
 res = {"property": prop, "mutation": m}
 if not mm:
     res["error"] = "no DEMO line"
